@@ -304,3 +304,65 @@ def c13_8(ctx):
     if not ctx.findings and [b for b in body if b in want] != want:
         missing = [w for w in want if w not in body]
         raise AnalysisError('df_unslice pipeline changed: missing %s' % missing[:2])
+
+
+@obligation('C13.9', 'TABLES (guards by truth table)', '_pandas:_df_slice, _pandas:df_slice',
+            'the slice applies to non-empty pandas objects when at least one bound is given; bounds are converted with dt unless None or a time of day; the pieces of a stitch are concatenated, a single piece returned as is',
+            axioms=())
+def c13_9(ctx):
+    r = ctx.repo
+    f = r.fn('_pandas:_df_slice')
+    df = f.params[0]
+    top = [s for s in f.body if isinstance(s, ast.If)]
+    ctx.count(1, f.where())
+    ok, w = (False, None)
+    if top:
+        ok, w = prop_equiv(top[0].test, 'isinstance(%s, (pd.Index, pd.Series, pd.DataFrame)) and len(%s) > 0 and (ub is not None or lb is not None)' % (df, df))
+    if not ok:
+        ctx.fail(f, top[0] if top else f.node, 'slicing is applied when `%s`, expected: a non-empty pandas object and at least one bound' % (U(top[0].test) if top else '?'), witness=w)
+    for b in ('lb', 'ub'):
+        ctx.count(1)
+        if not any(isinstance(s, ast.Assign) and U(s.targets[0]) == b and N(s.value) == NS('%s if %s is None or isinstance(%s, datetime.time) else dt(%s)' % (b, b, b, b)) for s in ast.walk(f.node)):
+            ctx.fail(f, f.node, 'the bound %s is no longer converted with dt() (strings/ints would be compared with timestamps)' % b)
+    nts = [s for s in ast.walk(f.node) if isinstance(s, ast.If) and N(s.test) == 'is_ts(%s)' % df]
+    if nts and nts[0].orelse and isinstance(nts[0].orelse[0], ast.If):
+        ctx.count(1)
+        ok, w = prop_equiv(nts[0].orelse[0].test, '(l or lb is None) and (ub is None or not u)')
+        if not ok:
+            ctx.fail(f, nts[0].orelse[0], 'positional slicing of a non-timeseries (closed start, open end) is taken when `%s`' % U(nts[0].orelse[0].test), witness=w)
+    rr = returns_of(f.node)
+    if not rr or U(rr[-1].value) != df:
+        ctx.fail(f, f.node, '_df_slice does not return the (masked) data')
+    g = r.fn('_pandas:df_slice')
+    dfp = g.params[0]
+    ctx.count(1, g.where())
+    d = g.defaults()
+    if const(d.get('n')) != 1 or const(d.get('lb'), 'X') is not None or const(d.get('ub'), 'X') is not None:
+        ctx.fail(g, g.node, 'defaults of df_slice changed: lb=%s ub=%s n=%s' % (U(d.get('lb')), U(d.get('ub')), U(d.get('n'))))
+    expect_guards(ctx, g, [
+        ('isinstance(lb, tuple) and len(lb) == 2 and ub is None', 'lb, ub = lb', 'a (lb, ub) pair'),
+        ('len(res) == 0', 'return None', 'nothing to slice'),
+        ('len(res) == 1', 'return res[0]', 'a single piece is returned as is'),
+        ('isinstance(lb, list) and isinstance(ub, list)', 'res = pd.concat(res)', 'the pieces of a stitch are concatenated'),
+        ('ub_increasing != lb_increasing', "raise ValueError('must have both lower bounds and upper bounds in same direction')", 'bound lists must run the same way'),
+    ], where=g.body + [x for s in g.body if isinstance(s, ast.If) for x in ast.walk(s) if isinstance(x, ast.If)])
+    ctx.count(1)
+    defs = {U(s.targets[0]): N(s.value) for s in ast.walk(g.node) if isinstance(s, ast.Assign) and isinstance(s.targets[0], ast.Name)}
+    if defs.get('boundaries') != NS('sorted(set([date for date in lb + ub if date is not None]))'):
+        ctx.fail(g, g.node, 'boundaries are `%s`' % defs.get('boundaries'))
+    if defs.get('dfs') != 'as_list(%s)' % dfp:
+        ctx.fail(g, g.node, 'the data are not as_list(df)')
+    conv = [s for s in ast.walk(g.node) if isinstance(s, ast.Assign) and U(s.targets[0]) == dfp and 'pd.Series(' in U(s.value)]
+    if not conv or N(conv[0].value) != NS('[d if is_pd(d) else pd.Series(d, boundaries) for d in %s]' % dfp):
+        ctx.fail(g, conv[0] if conv else g.node, 'constants to stitch are not turned into series over the boundaries')
+    cols = [s for s in ast.walk(g.node) if isinstance(s, ast.Assign) and U(s.targets[0]) == 'd.columns']
+    if not cols or N(cols[0].value) != 'range(d.shape[1])':
+        ctx.fail(g, cols[0] if cols else g.node, 'the n stitched columns are not numbered 0..n-1')
+    rr = returns_of(g.node)
+    if not rr or U(rr[-1].value) != 'res':
+        ctx.fail(g, g.node, 'df_slice does not return the sliced result')
+    nn = r.fn('_pandas:_nona')
+    ctx.count(1, nn.where())
+    w_ = [s for s in nn.body if isinstance(s, ast.While)]
+    if not w_ or not prop_equiv(w_[0].test, 'len(mask.shape) > 1')[0] or N(w_[0].body[0].value) != 'mask.min(axis=1)':
+        ctx.fail(nn, w_[0] if w_ else nn.node, '_nona does not reduce the mask over the columns while it has more than one dimension')
